@@ -254,7 +254,9 @@ def main():
                      'detail': res.get('mismatches', [])[:3],
                      'count': res['n_mismatches']})
     for v in res.get('oracle_violations', []):
-      violations.append(v)
+      # a harness step may serve several properties: keys are 'Cxx:...'
+      if v.get('key', '').startswith(pid + ':'):
+        violations.append(v)
 
   known = load_known()
   open_known = [k for k in known if k['property'] == pid and
